@@ -330,6 +330,17 @@ static void execOp(const std::string& actor, size_t idx, const js::Value& op) {
 			Event e(op["name"].str("e"), Event::EXTERNAL);
 			if (op.has("data")) e.data = Data(op["data"].str(), Data::VERBATIM);
 			if (op.has("json")) e.data = Data::fromJSON(op["json"].str());
+			if (op.has("params")) {
+				// [[name, json value], ...]: several names, and a name more than once
+				const js::Value& ps = op["params"];
+				for (size_t n = 0; n < ps.size(); n++)
+					e.params.insert(std::make_pair(ps[n][(size_t)0].str(), Data::fromJSON(ps[n][(size_t)1].str())));
+			}
+			if (op.has("namelist")) {
+				const js::Value& nl = op["namelist"];
+				for (size_t n = 0; n < nl.size(); n++)
+					e.namelist[nl[n][(size_t)0].str()] = Data::fromJSON(nl[n][(size_t)1].str());
+			}
 			usim::api_enter("receive");
 			interp.receive(e);
 			usim::api_leave();
